@@ -349,6 +349,15 @@ def eval_lattice(tf, tfl, d):
         fail = "Lattice kernel gradient (interpolation weights) has a negative entry %r at x=%r" % (min(g), d["xs"][u])
       elif abs(sum(g) - 1.0) > 1e-9:
         fail = "Lattice kernel gradient (interpolation weights) sums to %r, not 1, at x=%r" % (sum(g), d["xs"][u])
+  if not in_domain and fail is None:
+    # unclipped input outside the lattice range: the statement's "(non-negative, summing to one for Lattice)" is not
+    # met there (known finding D69; theorems C19_lattice_unclipped_outside_*_refuted)
+    for u in range(units):
+      g = grads[0][u]
+      if min(g) < -1e-12 or abs(sum(g) - 1.0) > 1e-9:
+        fail = ("unclipped out-of-range input: Lattice kernel gradient (interpolation weights) has minimum %r and sum %r "
+                "at x=%r" % (min(g), sum(g), d["xs"][u]))
+        break
   if d["interp"] == "hypercube":
     coq = "CHyper %s %s %s %s %s" % (cbool(d["clip"]), cbool(d["as_list"]), cnatl(sizes), cqm(d["xs"]), _cube(grads))
   else:
@@ -486,3 +495,12 @@ def eval_cases(ctx, descs):
                         pred_fail="%s case: the implementation raised %s: %s" % (
                             k, type(e).__name__, " ".join(str(e).split())[:300])))
   return cases
+
+
+def _d69(case):
+  d = case.desc
+  return (d.get("kind") == "lattice" and not d.get("clip") and
+          (case.pred_fail or "").startswith("unclipped out-of-range input: Lattice kernel gradient"))
+
+
+KNOWN_CLASSES = dict(globals().get("KNOWN_CLASSES", {}), lattice_weights_unclipped_outside=_d69)
